@@ -32,15 +32,24 @@ def main():
     from norminette.registry import Registry, rules
     from norminette.exceptions import CParsingError
     reg = Registry()
+    # the host process may have its own settings: they are not norminette's to change
+    if req.get("reclimit"):
+        sys.setrecursionlimit(req["reclimit"])
+    R = req.get("R")           # the ONE list object argparse hands to every Context of a run (nargs=1)
+
+    def process_state():
+        return {"recursionlimit": sys.getrecursionlimit(), "cwd": os.getcwd(), "environ": hash(frozenset(os.environ.items())),
+                "sys.path": len(sys.path), "R": list(R) if R is not None else None}
     out = {"primaries": [r.__name__ for r in rules.primaries],
            "deps": {k: [r.__name__ for r in v] for k, v in reg.dependencies.items()}, "files": []}
     for name, src in req["files"]:
         f = File(name, src)
         buf = io.StringIO()
+        before = process_state()
         try:
             with contextlib.redirect_stdout(buf):
                 toks = list(Lexer(f))
-                reg.run(Context(f, toks, req.get("debug", 0), None))
+                reg.run(Context(f, toks, req.get("debug", 0), R))
             res = {"outcome": "ok", "status": f.errors.status,
                    "diags": [[e.level, e.name, e.highlights[0].lineno if e.highlights else None,
                               e.highlights[0].column if e.highlights else None] for e in f.errors]}
@@ -50,6 +59,10 @@ def main():
             res = {"outcome": "crash:RecursionError"}
         except Exception as e:
             res = {"outcome": "crash:" + type(e).__name__}
+        after = process_state()
+        changed = sorted(k for k in before if before[k] != after[k])
+        if changed:
+            res["process_state_changed"] = {k: [before[k], after[k]] for k in changed}
         out["files"].append(res)
     print(json.dumps(out))
 
